@@ -1,5 +1,10 @@
 import Proofs.Lemmas.HierIs
 import Proofs.Lemmas.HierDispatch
+import Proofs.Lemmas.HierShapeQ
+import Proofs.Lemmas.HierShapeR
+import Proofs.Lemmas.HierShapeC
+import Proofs.Lemmas.HierShapeD
+import Generated.C08Walks
 /-!
 # C08 — instanceof, type hints, catch and dispatch follow the declared class hierarchy
 
@@ -322,5 +327,354 @@ example : ∀ x ∈ [Hop.parent exB, Hop.staticKw, Hop.parent exA], x.isSelf = f
 example : selfCall exG 10 20 = .found (exA, ⟨20, 0⟩) ∧ staticKwCall exG (Ctx.ofObject exC) 20 = .found (exC, ⟨20, 0⟩) := by decide
 -- like: C provides I0's m0? most-derived m0 is B's with 2 parameters, I0 wants 1 → false; K's m1/0 is A's → true
 example : like exG exC 100 = some false ∧ like exG exC 102 = some true := by decide
+
+/-! ## Regenerated facts: the shape of the walks (`Generated.C08Walks`, written by `extract/c08` on every run)
+
+`Model.Hier` mirrors the walks by hand. What makes the mirror right is a list of syntactic facts about the Go loops; the
+translator regenerates them, `Model.HierShape` interprets a fact record as a walk, and the theorems below say, for EVERY
+record that passes the decidable check, that the interpreted walk is reachability / the most-derived lookup / `IsA` (so it
+is the model's walk). The obligations `C08_walks_obligation_*` discharge the checks for the regenerated records by `decide`:
+a change of the source that invalidates a fact breaks the obligation of that name. Each `…_counterexample` is a record with
+one realistic mistake and a concrete hierarchy on which the guarantee fails. -/
+
+section Walks
+open Model.HierShape Proofs.HierShape
+
+/-! ### the queue loop of `interfaceExtends` -/
+
+/-- **Generic: every well-shaped worklist decides reachability over interface-extends edges, on every graph** (cyclic ones,
+undeclared names included): the start is tested, the queue is seeded with ALL parents, the loop re-reads the queue every trip,
+takes from either end, tests the name taken, SKIPS a visited name, marks, skips an unregistered name, appends ALL parents of
+the loaded interface, and answers `false` when the queue is dry. -/
+theorem C08_walks_worklist_reach (S : Worklist) (hok : S.ok = true) (G : Graph) (s t : Name) :
+    ∃ b, runIE S G s t = some b ∧ (b = true ↔ IReach G s t) :=
+  runIE_spec hok G s t
+
+/-- a well-shaped worklist that takes from the head and also tests the loaded name IS the model's `bfs`, trip by trip -/
+theorem C08_walks_worklist_is_bfs (S : Worklist) (hok : S.ok = true) (hh : S.take = .head) (hl : S.hitOnLoad = true)
+    (G : Graph) (t : Name) (f : Nat) (q vis : List Name) : runW S G t f q vis = bfs G t f q vis :=
+  runW_eq_bfs (wok_of_ok hok) hh hl G t f q vis
+
+/-- obligation: the regenerated worklist facts are well-shaped -/
+theorem C08_walks_obligation_worklist :
+    (∀ S ∈ Generated.C08Walks.worklists, S.ok = true) ∧ Generated.C08Walks.worklists ≠ [] := by
+  first | decide | fail "obligation C08_walks_obligation_worklist no longer holds: data/type_class.go interfaceExtends no longer has the shape of a worklist that decides reachability (start test, queue seeded with ALL parents, loop that re-reads the queue, target test on the name taken, visited names SKIPPED and marked, ALL parents appended, false when dry) — see Generated.C08Walks.worklists"
+
+/-- hence the `interfaceExtends` of the working tree decides reachability -/
+theorem C08_walks_interfaceExtends_generated (S : Worklist) (hS : S ∈ Generated.C08Walks.worklists) (G : Graph) (s t : Name) :
+    ∃ b, runIE S G s t = some b ∧ (b = true ↔ IReach G s t) :=
+  C08_walks_worklist_reach S (C08_walks_obligation_worklist.1 S hS) G s t
+
+def wlCanon : Worklist :=
+  { fn := "w", startHit := true, seed := .all, loop := .live, take := .head, hitOnTake := true, onSeen := .skip,
+    marks := true, onMissing := .next, hitOnLoad := true, push := .all, dry := false }
+
+def ifc (n : Name) (ext : List Name) : Ifc := { name := n, ext := ext, meths := [] }
+
+/-- I100 → I101 → I102 -/
+def exLine : Graph := { classes := [], ifaces := [ifc 100 [101], ifc 101 [102], ifc 102 []] }
+/-- I100 → {I101, I102}, I101 → I103, I102 → {I103, I104} -/
+def exDiamond : Graph :=
+  { classes := [], ifaces := [ifc 100 [101, 102], ifc 101 [103], ifc 102 [103, 104], ifc 103 [], ifc 104 []] }
+/-- I100 ⇄ I101 -/
+def exLoop : Graph := { classes := [], ifaces := [ifc 100 [101], ifc 101 [100]] }
+
+/-- negation witness (seeded change C08-interface-extends-range-snapshot): `for _, name := range queue` iterates over a
+snapshot, what the body appends is never visited — an interface two hops up is missed. -/
+theorem C08_walks_snapshot_counterexample :
+    ¬ ∀ G s t, ∃ b, runIE { wlCanon with loop := .snapshot } G s t = some b ∧ (b = true ↔ IReach G s t) := by
+  intro h
+  obtain ⟨b, hb, hiff⟩ := h exLine 100 102
+  have : runIE { wlCanon with loop := .snapshot } exLine 100 102 = some false := by decide
+  rw [this] at hb; cases hb
+  exact absurd (hiff.2 (reach_of_ok (S := wlCanon) (by decide) (by decide))) (by simp)
+
+/-- negation witness: only the first parent of a loaded interface is appended (`append(queue, parent.GetExtends()[0])`) -/
+theorem C08_walks_first_parent_counterexample :
+    ¬ ∀ G s t, ∃ b, runIE { wlCanon with push := .first } G s t = some b ∧ (b = true ↔ IReach G s t) := by
+  intro h
+  obtain ⟨b, hb, hiff⟩ := h exDiamond 100 104
+  have : runIE { wlCanon with push := .first } exDiamond 100 104 = some false := by decide
+  rw [this] at hb; cases hb
+  exact absurd (hiff.2 (reach_of_ok (S := wlCanon) (by decide) (by decide))) (by simp)
+
+/-- negation witness: a visited name ends the walk (`return false` / `break` where `continue` belongs) — the siblings still in
+the queue are never looked at -/
+theorem C08_walks_seen_stops_counterexample :
+    ¬ ∀ G s t, ∃ b, runIE { wlCanon with onSeen := .stop } G s t = some b ∧ (b = true ↔ IReach G s t) := by
+  intro h
+  obtain ⟨b, hb, hiff⟩ := h exDiamond 100 104
+  have : runIE { wlCanon with onSeen := .stop } exDiamond 100 104 = some false := by decide
+  rw [this] at hb; cases hb
+  exact absurd (hiff.2 (reach_of_ok (S := wlCanon) (by decide) (by decide))) (by simp)
+
+/-- negation witness: without marking, the loop does not end on a cyclic interface graph (the model runs out of any fuel) -/
+theorem C08_walks_unmarked_counterexample :
+    ¬ ∀ G s t, ∃ b, runIE { wlCanon with marks := false } G s t = some b ∧ (b = true ↔ IReach G s t) := by
+  intro h
+  obtain ⟨b, hb, _⟩ := h exLoop 100 105
+  have : runIE { wlCanon with marks := false } exLoop 100 105 = none := by decide
+  rw [this] at hb; cases hb
+
+-- non-vacuity: the pinned shape, and the harmless variants (a stack instead of a queue; no second target test)
+example : wlCanon.ok = true ∧ ({ wlCanon with take := .last } : Worklist).ok = true ∧
+    ({ wlCanon with hitOnLoad := false } : Worklist).ok = true := by decide
+example : runIE { wlCanon with take := .last } exDiamond 100 104 = some true := by decide
+
+/-! ### the recursion of `checkInterfaceIs` -/
+
+/-- **Generic: a well-shaped recursive walk without seen set IS the model's `dfs`** (name test, range over ALL parents, an
+unregistered parent is skipped, a parent that reaches the target ends the walk with `true`, one that does not lets the loop go
+on, `false` after the loop). -/
+theorem C08_walks_rec_is_dfs (S : RecWalk) (hok : S.ok = true) (ha : S.onSeen = .absent) (G : Graph) (t : Name) (f : Nat)
+    (i : Ifc) (seen : List Name) : runR S G t f i seen = (dfs G t f i).map (fun b => (b, seen)) :=
+  runR_eq_dfs (rok_of_ok hok).1 ha G t f i seen
+
+/-- **Generic: a well-shaped recursive walk that keeps a seen set and SKIPS seen parents decides reachability on every graph
+whose parent names are declared — cyclic ones included** (so adding a correct seen set to `checkInterfaceIs` keeps the
+obligation; making a seen parent end the loop does not). -/
+theorem C08_walks_rec_seen_reach (S : RecWalk) (hok : S.ok = true) (hs : S.onSeen = .skip) (G : Graph)
+    (hwf : ∀ d ∈ G.ifaces, ∀ j ∈ d.ext, (getIface G j).isSome) (t : Name) (i : Ifc) (hi : getIface G i.name = some i) :
+    ∃ b s, runR S G t (depthFuel G) i [] = some (b, s) ∧ (b = true ↔ IReach G i.name t) :=
+  runR_skip_decides (rok_of_ok hok).1 hs G hwf t i hi
+
+/-- obligation: the regenerated facts of the recursive walk are well-shaped -/
+theorem C08_walks_obligation_rec :
+    (∀ S ∈ Generated.C08Walks.recWalks, S.ok = true) ∧ Generated.C08Walks.recWalks ≠ [] := by
+  first | decide | fail "obligation C08_walks_obligation_rec no longer holds: node/class.go checkInterfaceIs no longer has the shape of a recursive walk that decides reachability (name test, range over ALL parents, a parent that reaches the target returns true, one that does not lets the loop go on, a seen parent — if a seen set is kept — is SKIPPED, false after the loop) — see Generated.C08Walks.recWalks"
+
+def rwCanon : RecWalk :=
+  { fn := "r", selfHit := true, over := .all, onSeen := .absent, onMissing := .next, childTrue := true, childFalse := .next,
+    dry := false }
+
+/-- I100 → {I101, I102, I103}, I101 → I102 -/
+def exShared : Graph :=
+  { classes := [], ifaces := [ifc 100 [101, 102, 103], ifc 101 [102], ifc 102 [], ifc 103 []] }
+
+/-- negation witness (seeded change C08-interface-walk-seen-return): a parent that was already seen makes the walk `return
+false`; the parents listed after it are never examined. The model's `dfs` (and reachability) say `true`. -/
+theorem C08_walks_rec_seen_stops_counterexample :
+    ∃ G t i, (runR { rwCanon with onSeen := .stop } G t (depthFuel G) i []).map (·.1) = some false ∧
+      dfs G t (depthFuel G) i = some true :=
+  ⟨exShared, 103, ifc 100 [101, 102, 103], by decide, by decide⟩
+
+/-- negation witness: the first parent decides (`return walk(parent)` inside the loop) -/
+theorem C08_walks_rec_first_parent_counterexample :
+    ∃ G t i, (runR { rwCanon with childFalse := .stop } G t (depthFuel G) i []).map (·.1) = some false ∧
+      dfs G t (depthFuel G) i = some true :=
+  ⟨exShared, 103, ifc 100 [101, 102, 103], by decide, by decide⟩
+
+example : rwCanon.ok = true ∧ ({ rwCanon with onSeen := .skip } : RecWalk).ok = true ∧
+    ({ rwCanon with onSeen := .stop } : RecWalk).ok = false := by decide
+-- the skipping variant answers on a cyclic graph, where the pinned shape runs out of fuel
+example : (runR { rwCanon with onSeen := .skip } exLoop 105 (depthFuel exLoop) (ifc 100 [101]) []).map (·.1) = some false ∧
+    runR rwCanon exLoop 105 (depthFuel exLoop) (ifc 100 [101]) [] = none := by decide
+
+/-! ### loops over the extends chain -/
+
+/-- **Generic: a well-shaped chain loop that examines the base class first finds the most-derived declaration** — for every
+member table `decl`, whatever the extra-condition oracle `keep` and the stale class are (a well-shaped loop uses neither). -/
+theorem C08_walks_chain_most_derived {α : Type} (S : Chain) (hok : S.okCore = true) (hb : S.«from» = .base) (G : Graph)
+    (hac : Acyclic G) (decl : Cls → Option α) (keep : α → Bool) (stale b d : Cls) (x : α) :
+    lookupS S G decl keep stale b = .found (d, x) ↔ MostDerived G decl b d x := by
+  rw [lookupS_base (cok_of_okCore hok) hb]
+  exact ⟨lookupG_found G decl b d x, lookupG_complete G hac.1 decl b d x⟩
+
+/-- for the method tables it IS the model's `lookupFrom` -/
+theorem C08_walks_chain_is_lookupFrom (S : Chain) (hok : S.okCore = true) (hb : S.«from» = .base) (G : Graph)
+    (pick : Cls → List Meth) (m : Name) (keep : Meth → Bool) (stale b : Cls) :
+    lookupS S G (fun k => findM (pick k) m) keep stale b = lookupFrom G pick b m := by
+  rw [lookupS_base (cok_of_okCore hok) hb, lookupFrom_eq_lookupG]
+
+/-- **Generic: a well-shaped chain loop that starts above the base class** (`parent::`) finds the nearest declaration at or
+above the base's parent. -/
+theorem C08_walks_chain_above {α : Type} (S : Chain) (hok : S.okCore = true) (hb : S.«from» ≠ .base) (G : Graph)
+    (hac : Acyclic G) (decl : Cls → Option α) (keep : α → Bool) (stale b p a : Cls) (hext : b.ext = some p.name)
+    (hp : Declared G p) (x : α) :
+    lookupS S G decl keep stale b = .found (a, x) ↔ MostDerived G decl p a x := by
+  rw [lookupS_above (cok_of_okCore hok) hb, hext]
+  constructor
+  · intro h
+    obtain ⟨c0, hc0, hm⟩ := walkTag_found G decl _ p.name a x h
+    unfold Declared at hp
+    rw [hp] at hc0; cases hc0
+    exact hm
+  · intro h
+    exact walkTag_complete G hac.1 decl p.name p a x hp h
+
+/-- obligation: every regenerated chain loop is well-shaped, and the loops the model mirrors are exactly the expected ones,
+each examining the classes, consulting the tables and treating an unloadable parent the way `Model.Hier` says -/
+theorem C08_walks_obligation_chains : chainsOK Generated.C08Walks.chains = true := by
+  first | decide | fail "obligation C08_walks_obligation_chains no longer holds: a loop over the extends chain (extendISClass, ClassValue.GetPropertyStmt / GetMethod, CallParentMethod, CallStaticMethod, CallStaticKeywordMethod, findMethodInHierarchy …) no longer leaves at the FIRST hit of a plain table lookup, advances to the parent of the class examined, reports that class, or no longer examines / consults / treats a missing parent the way Model.Hier says — see Generated.C08Walks.chains against Model.HierShape.expectedChains"
+
+def chCanon : Chain :=
+  { fn := "c", role := "method", start := "c.Class", «from» := .base, advance := .parentOfVisited, lookups := ["GetMethod"],
+    extra := [], onHit := .leave, found := .unrecorded, repair := false, onMissing := "notFound" }
+
+/-- A { m0/1, m1/0 }, B extends A { m0/2 }, C extends B {} -/
+def clsA : Cls := { name := 10, ext := none, impl := [], meths := [⟨0, 1⟩, ⟨1, 0⟩], smeths := [] }
+def clsB : Cls := { name := 11, ext := some 10, impl := [], meths := [⟨0, 2⟩], smeths := [] }
+def clsC : Cls := { name := 12, ext := some 11, impl := [], meths := [], smeths := [] }
+def exABC : Graph := { classes := [clsA, clsB, clsC], ifaces := [] }
+
+/-- negation witness (seeded change C08-like-walk-skips-shadowing): an extra condition inside the hit test (the parameter
+count) lets the walk pass the most-derived definition and accept a shadowed one. -/
+theorem C08_walks_chain_filter_counterexample :
+    lookupS { chCanon with extra := ["len(m.GetParams()) == len(want.GetParams())"] } exABC (declInst 0)
+        (fun x => x.arity == 1) clsC clsC = .found (clsA, ⟨0, 1⟩) ∧
+    lookupFrom exABC (·.meths) clsC 0 = .found (clsB, ⟨0, 2⟩) := by decide
+
+/-- negation witness: the hit is kept as a candidate and the loop goes on — the LEAST derived definition wins -/
+theorem C08_walks_chain_goes_on_counterexample :
+    lookupS { chCanon with onHit := .goOn } exABC (declInst 0) (fun _ => true) clsC clsC = .found (clsA, ⟨0, 1⟩) ∧
+    lookupFrom exABC (·.meths) clsC 0 = .found (clsB, ⟨0, 2⟩) := by decide
+
+/-- negation witness (seeded change C08-parent-chain-gap on the tree before 3770e5b): the class reported with the method is
+a variable set before the loop (the class the walk started from: B for `parent::m1()` written in C), not the class the method
+was found in (A) — a nested `parent::` restarts below the definition. With the re-derivation the pinned tree has had since
+3770e5b (`repair`) the same record is well-shaped and reports A. -/
+theorem C08_walks_chain_stale_class_counterexample :
+    lookupS { chCanon with «from» := .above, found := .start "foundClass = current" } exABC (declInst 1) (fun _ => true) clsB clsC
+      = .found (clsB, ⟨1, 0⟩) ∧
+    walkUp exABC (fun d => some ((declInst 1 d).map (fun x => (d, x)))) (classFuel exABC) clsC.ext = .found (clsA, ⟨1, 0⟩) ∧
+    lookupS { chCanon with «from» := .above, found := .start "foundClass = current", repair := true } exABC (declInst 1)
+      (fun _ => true) clsB clsC = .found (clsA, ⟨1, 0⟩) ∧
+    ({ chCanon with found := .start "foundClass = current", repair := true } : Chain).okCore = true ∧
+    ({ chCanon with found := .start "foundClass = current" } : Chain).okCore = false ∧
+    ({ chCanon with found := .stale "foundClass = other", repair := true } : Chain).okCore = false := by decide
+
+/-- negation witness: the walk starts one level up (the class itself is not examined where it should be) -/
+theorem C08_walks_chain_one_level_up_counterexample :
+    lookupS { chCanon with «from» := .above } exABC (declInst 0) (fun _ => true) clsB clsB = .found (clsA, ⟨0, 1⟩) ∧
+    lookupFrom exABC (·.meths) clsB 0 = .found (clsB, ⟨0, 2⟩) := by decide
+
+/-- negation witness: the cursor is not advanced to the parent of the class just examined — the loop never ends -/
+theorem C08_walks_chain_stuck_counterexample :
+    lookupS { chCanon with advance := .other "last = c.Class" } exABC (declInst 7) (fun _ => true) clsC clsC = .fuel ∧
+    lookupFrom exABC (·.meths) clsC 7 = .absent := by decide
+
+example : chCanon.okCore = true ∧ chCanon.«from» = .base := by decide
+example : Acyclic exABC := acyclic_of_rankOK exABC (by decide)
+example : lookupS chCanon exABC (declInst 0) (fun _ => false) clsA clsC = .found (clsB, ⟨0, 2⟩) := by decide
+
+/-! ### the subtype deciders -/
+
+/-- **Generic: every well-shaped decider decides `IsA`**, whatever interface walks it calls as long as they decide
+reachability: it tests the name, scans the WHOLE implements list with a direct test and a walk, and hands the parent chain to
+a well-shaped decider. `miss` is what it answers when a parent class cannot be loaded (`no` for the type-hint path, an error
+for `instanceof`). -/
+theorem C08_walks_decider_isA (D Dc : Decider) (hD : D.ok = true) (hDc : Dc.ok = true) (G : Graph) (hac : Acyclic G)
+    (t : Name) (walk : String → Name → Name → Option Bool)
+    (hw : ∀ L, L ∈ D.impls ∨ L ∈ Dc.impls → L.walk ≠ "" → WalkDecides G t (walk L.walk))
+    (miss : R) (hm : miss ≠ .fuel) (c : Cls) :
+    (IsA G c t → decideD D Dc walk G t miss c = .yes) ∧
+    (¬ IsA G c t → decideD D Dc walk G t miss c = .no ∨ decideD D Dc walk G t miss c = miss) :=
+  decideD_spec (dok_of_ok hD) (dok_of_ok hDc) G hac.1 t walk hw miss hm c
+
+/-- **all well-shaped deciders share one subtype relation** -/
+theorem C08_walks_deciders_agree (D Dc D' Dc' : Decider) (h1 : D.ok = true) (h2 : Dc.ok = true) (h3 : D'.ok = true)
+    (h4 : Dc'.ok = true) (G : Graph) (hac : Acyclic G) (t : Name) (walk walk' : String → Name → Name → Option Bool)
+    (hw : ∀ L, L ∈ D.impls ∨ L ∈ Dc.impls → L.walk ≠ "" → WalkDecides G t (walk L.walk))
+    (hw' : ∀ L, L ∈ D'.impls ∨ L ∈ Dc'.impls → L.walk ≠ "" → WalkDecides G t (walk' L.walk)) (c : Cls) :
+    decideD D Dc walk G t .no c = decideD D' Dc' walk' G t .no c :=
+  deciders_agree (dok_of_ok h1) (dok_of_ok h2) (dok_of_ok h3) (dok_of_ok h4) G hac.1 t walk walk' hw hw' c
+
+/-- obligation: the regenerated deciders are well-shaped and hand the chain to a decider of the table -/
+theorem C08_walks_obligation_deciders : decidersOK Generated.C08Walks.deciders = true := by
+  first | decide | fail "obligation C08_walks_obligation_deciders no longer holds: a subtype decider (isClassValueInstanceOf, Class.Is arm *ThisValue, the body of extendISClass, checkClassIs) no longer tests the name, scans the WHOLE implements list with a direct test and an interface walk called as walk(implemented, target), and hands the parent chain on — see Generated.C08Walks.deciders"
+
+/-- obligation: instanceof, catch and the arms of `Class.Is` call the deciders the model says they reach -/
+theorem C08_walks_obligation_routes : Generated.C08Walks.routes = expectedRoutes := by
+  first | decide | fail "obligation C08_walks_obligation_routes no longer holds: instanceof / catchTypeMatches / an arm of Class.Is / a decider calls other subtype deciders or interface walks than Model.Hier mirrors — see Generated.C08Walks.routes against Model.HierShape.expectedRoutes"
+
+/-- a well-shaped worklist is a walk a decider may call (`interfaceExtends` for the type-hint and catch paths) -/
+theorem C08_walks_worklist_walkDecides (S : Worklist) (hok : S.ok = true) (G : Graph) (t : Name) :
+    WalkDecides G t (fun s t => runIE S G s t) := by
+  intro s
+  obtain ⟨b, hb, hiff⟩ := C08_walks_worklist_reach S hok G s t
+  exact ⟨b, hb, hiff.1, fun _ hr => hiff.2 hr⟩
+
+def dcCanon : Decider :=
+  { fn := "d", nameTest := true, impls := [{ direct := true, walk := "interfaceExtends", argsOK := true, onMiss := .next }],
+    chain := .call "extendISClass" }
+
+def canonWalk (G : Graph) : String → Name → Name → Option Bool := fun _ s t => runIE wlCanon G s t
+
+/-- class K implements I100, I101 (unrelated interfaces); class L extends K -/
+def clsK : Cls := { name := 10, ext := none, impl := [100, 101], meths := [], smeths := [] }
+def clsL : Cls := { name := 11, ext := some 10, impl := [], meths := [], smeths := [] }
+def exImpl : Graph := { classes := [clsK, clsL], ifaces := [ifc 100 [], ifc 101 []] }
+
+/-- negation witness: the scan of the implements list returns after the first interface that does not reach the target -/
+theorem C08_walks_decider_first_interface_counterexample :
+    decideD { dcCanon with impls := [{ direct := true, walk := "interfaceExtends", argsOK := true, onMiss := .stop }] } dcCanon
+      (canonWalk exImpl) exImpl 101 .no clsK = .no ∧
+    isClassValue exImpl 101 clsK = .yes := by decide
+
+/-- negation witness: the parent chain is not followed — the interfaces of an ancestor are missed -/
+theorem C08_walks_decider_no_chain_counterexample :
+    decideD { dcCanon with chain := .none } dcCanon (canonWalk exImpl) exImpl 101 .no clsL = .no ∧
+    isClassValue exImpl 101 clsL = .yes := by decide
+
+/-- negation witness: the arguments of the interface walk are swapped (is the TARGET a sub-interface of the implemented one?) -/
+theorem C08_walks_decider_swapped_counterexample :
+    decideD { dcCanon with impls := [{ direct := true, walk := "interfaceExtends", argsOK := false, onMiss := .next }] } dcCanon
+      (canonWalk exLine) { exLine with classes := [{ clsK with impl := [102] }] } 100 .no { clsK with impl := [102] } = .yes ∧
+    isClassValue { exLine with classes := [{ clsK with impl := [102] }] } 100 { clsK with impl := [102] } = .no := by decide
+
+example : dcCanon.ok = true ∧ decidersOK [dcCanon, { dcCanon with fn := "extendISClass", chain := .loop }] = true := by decide
+example : decideD dcCanon dcCanon (canonWalk exImpl) exImpl 101 .no clsL = .yes := by decide
+
+/-! ### what `parent::` / `static::` are resolved against, and state kept on AST nodes -/
+
+/-- the order in which `CallParentMethod` and `CallStaticKeywordMethod` pick their class is the model's `parentBase` /
+`staticBase`: for every table equal to the expected one -/
+theorem C08_walks_base_is_model (tbl : List Base) (h : tbl = expectedBases) (G : Graph) (ctx : Ctx) (cur : Name) :
+    (tbl.map (fun B => baseOf G ctx cur B.order)) = [some (parentBase G ctx cur), some (staticBase ctx)] := by
+  subst h
+  simp only [expectedBases, List.map, baseOf, Src.ofString, Src.get, parentBase, staticBase]
+  cases hs : ctx.selfC <;> cases hst : ctx.staticC <;> simp <;>
+    (cases getClass G cur with
+     | none => rfl
+     | some c => cases hc : c.ext <;> simp [hc])
+
+/-- a call site without memo gives every runtime class its own lookup -/
+theorem C08_walks_site_no_memo {α : Type} (own look : Cls → Option α) (m : Option α) (cs : List Cls) :
+    siteRun false own look m cs = cs.map (fun c => match own c with | some x => some x | none => look c) := by
+  induction cs generalizing m with
+  | nil => rfl
+  | cons c r ih =>
+    rw [siteRun]
+    cases ho : own c with
+    | some x => simp [ih, ho]
+    | none => simp [ih, ho]
+
+/-- obligation: `parent::` / `static::` pick the class they resolve against in the order the model says -/
+theorem C08_walks_obligation_bases : Generated.C08Walks.bases = expectedBases := by
+  first | decide | fail "obligation C08_walks_obligation_bases no longer holds: CallParentMethod no longer resolves against SelfClass, else the parser's CurrentClass (registered, with a parent), else the context's class — or CallStaticKeywordMethod no longer starts from StaticClass, else the context's class — see Generated.C08Walks.bases"
+
+/-- obligation: no method-call node writes to its own fields while the program runs, except the resolution of the class
+NAME written in the source -/
+theorem C08_walks_obligation_node_state : nodeWritesOK Generated.C08Walks.nodeWrites = true := by
+  first | decide | fail "obligation C08_walks_obligation_node_state no longer holds: a method-call AST node (node/call_*_method.go, like.go, instanceof.go) assigns to one of its own fields at run time — a result kept on the node is shared by every runtime class that reaches the site — see Generated.C08Walks.nodeWrites"
+
+/-- obligation: the translator understood every shape it met -/
+theorem C08_walks_obligation_shape_notes : Generated.C08Walks.shapeNotes = [] := by
+  first | decide | fail "obligation C08_walks_obligation_shape_notes no longer holds: extract/c08 met a statement in a hierarchy walk that it does not understand (or a walk is gone) — see Generated.C08Walks.shapeNotes"
+
+/-- negation witness: `parent::` resolved against the runtime class (no `SelfClass`, no `CurrentClass`) — in a method of B
+inherited by C the call restarts at C's parent B instead of B's parent A -/
+theorem C08_walks_base_runtime_class_counterexample :
+    baseOf exABC (Ctx.ofMethod clsC clsB) 11 ["Class"] = some clsC ∧ parentBase exABC (Ctx.ofMethod clsC clsB) 11 = clsB := by
+  decide
+
+/-- negation witness (seeded change C08-static-kw-site-cache): the method found by walking is kept on the node; the next
+runtime class that does not declare it gets the first class's answer -/
+theorem C08_walks_site_memo_counterexample :
+    siteRun true (fun _ => none) (fun c => if c.name = 12 then some 1 else some 2) (none : Option Nat) [clsC, clsB] = [some 1, some 1] ∧
+    siteRun false (fun _ => none) (fun c => if c.name = 12 then some 1 else some 2) (none : Option Nat) [clsC, clsB] = [some 1, some 2] := by
+  decide
+
+end Walks
 
 end C08
